@@ -85,6 +85,7 @@ class Ctx:
         self.peeks = []                 # C10 peeks
         self.written = {}               # path -> last content written by user code
         self.hooks = {}                 # optional callbacks: 'point'
+        self.mask = set()               # rel paths never observed (cache-only directories)
         self.npoints = 0
 
     def ap(self, r):
@@ -111,7 +112,7 @@ class Ctx:
 
     def issue(self, kind, **kw):
         with self.lock:
-            self.issues.append(dict(kind=kind, **kw))
+            self.issues.append(dict(issue=kind, **kw))
 
     def point(self, label):
         """a program point at which user code could raise (crash-point enumeration)"""
@@ -181,12 +182,18 @@ def do_query(ctx, b, kind, r, mode):
             if ctx.real:
                 check_walk_shape(ctx, res, top, p)
             v = sorted([ctx.rel(d), sorted(sd), sorted(sf)] for d, sd, sf in res)
+            if ctx.mask:
+                v = [[d, [x for x in sd if (d + '/' + x if d else x) not in ctx.mask], sf]
+                     for d, sd, sf in v
+                     if d not in ctx.mask and not any(d.startswith(m + '/') for m in ctx.mask)]
         elif kind == 'list_dir':
             res = b.list_dir(p)
             if ctx.real and (not isinstance(res, list) or
                              any(x.__class__ is not str for x in res)):
                 ctx.issue('list_dir_shape', path=r, got=repr(res)[:80])
             v = sorted(res)
+            if ctx.mask:
+                v = [x for x in v if (r + '/' + x if r else x) not in ctx.mask]
         elif kind == 'get_size':
             isd = b.is_dir(p)
             res = b.get_size(p)
